@@ -54,6 +54,8 @@ def c14a_census(ctx, tu, seen):
             fe = erase(f["q"])
             if fe.rsplit("::", 2)[-2].startswith("(") or "::(anonymous" in fe:
                 continue
+            if fe == NS + "call_matcher::val":
+                continue   # the stored expected values: user values (a smart pointer in there is the user's)
             known = fe in OWNING or fe in LITERAL or fe in SCOPE or fe in USER or fe in NODE or fe in CONTAINMENT or fe in PEER
             # matcher classes store operands by value; a pointer-typed operand is the user's value
             if not known and (fe.startswith(NS + "predicate_matcher::") or fe.startswith(NS + "impl::") or
